@@ -298,6 +298,59 @@ def explore(chk):
             if r_used != r_new or hash(r_used) != hash(r_new):
                 chk.property_failure({"op": name_, "layout": str(before), "equal": bool(r_used == r_new), "hash_used": hash(r_used), "hash_fresh": hash(r_new)},
                                      "the result of %s on a layout that has been hashed / used before differs (as a value or in its hash) from the result on an equal fresh layout" % name_)
+    # (f) origin / extent attributes ("<size> <size>"): every parse gives exactly the two sizes written, whatever was parsed
+    #     before and whether or not the earlier values are still alive (attributes that differ only beyond the second decimal
+    #     print the same and are still different values)
+    tsub = chk.sub("two_size_attributes")
+    NUMS = ["0", "5", "10", "12.5", "33.33", "33.333", "33.3333", "66.67", "66.666", "66.6666", "50", "50.0", "50.001", "99.995", "100", "0.004", "0.005", "7.5", "7.50"]
+    alive = []
+    for _ in range(60 if chk.tier == "quick" else 2000):
+        cls = tsub.choice([g.Point, g.Stretch])
+        seq = []
+        for _ in range(tsub.randint(2, 5)):
+            if seq and tsub.random() < 0.5:
+                # a near miss of an earlier attribute: one number swapped for a neighbour in the list
+                parts = seq[tsub.randrange(len(seq))].split(" ")
+                k_ = tsub.randrange(2)
+                u_ = parts[k_].lstrip("0123456789.")
+                n_ = parts[k_][:len(parts[k_]) - len(u_)]
+                j_ = NUMS.index(n_)
+                parts[k_] = NUMS[max(0, min(len(NUMS) - 1, j_ + tsub.choice([-1, 1])))] + u_
+                seq.append(" ".join(parts))
+            else:
+                seq.append(tsub.choice(NUMS) + tsub.choice(geo.UNITS) + " " + tsub.choice(NUMS) + tsub.choice(geo.UNITS))
+        keep = tsub.random() < 0.7
+        got = []
+        for a_ in seq:
+            try:
+                v_ = cls.from_xml_attribute(a_)
+            except Exception as e:
+                chk.property_failure({"class": cls.__name__, "attributes": seq, "attribute": a_, "error": repr(e)[:200]}, "parsing a well-formed two-size attribute raised"); break
+            got.append(v_)
+            if keep:
+                alive.append(v_)
+            comps = (v_.x, v_.y) if cls is g.Point else (v_.horizontal, v_.vertical)
+            want = []
+            for part in a_.split(" "):
+                u_ = part.lstrip("0123456789.")
+                want.append((Fraction(float(part[:len(part) - len(u_)])), u_))
+            have = [(Fraction(c_.value), c_.unit.value) for c_ in comps]
+            case = {"class": cls.__name__, "attributes_parsed_in_order": seq, "attribute": a_, "earlier_values_kept_alive": keep}
+            chk.case(key=("two-size", cls.__name__, tuple(seq), a_), nontrivial=len(seq) > 1); chk.count("two_size_attribute_parses")
+            if have != want:
+                chk.property_failure(dict(case, parsed=str(have), written=str(want)), "%s.from_xml_attribute does not give the two sizes written in the attribute (it depends on what was parsed before)" % cls.__name__)
+                break
+            again = cls.from_xml_attribute(a_)
+            if again != v_ or hash(again) != hash(v_):
+                chk.property_failure(case, "parsing the same attribute twice gives unequal values or unequal hashes"); break
+        else:
+            for (a1, v1), (a2, v2) in itertools.combinations(zip(seq, got), 2):
+                same = [(Fraction(float(p[:len(p) - len(p.lstrip("0123456789."))])), p.lstrip("0123456789.")) for p in a1.split(" ")] == \
+                       [(Fraction(float(p[:len(p) - len(p.lstrip("0123456789."))])), p.lstrip("0123456789.")) for p in a2.split(" ")]
+                if bool(v1 == v2) != same:
+                    chk.property_failure({"class": cls.__name__, "a": a1, "b": a2, "equal": bool(v1 == v2)}, "two parsed attributes compare %s although their components %s" % ("equal" if v1 == v2 else "unequal", "are equal" if same else "differ"))
+                    break
+    del alive
     chk.recheck("geometry parsing / printing")
 
 
